@@ -155,7 +155,24 @@ class Sym:
         self.arith = {}        # span of a + - * node -> set of (op, left term, right term) seen on the paths
 
     # ------------------------------------------------------------------ entry points
-    def run(self):
+    def run(self, split_result=False):
+        """all paths of the function; with split_result a returned Result that is still an opaque (wrapped) term is
+        split into its Ok and Err case, so that every path ends in an explicit Ok(..) / Err(..)"""
+        out = self._run()
+        if not split_result or not (self.fn.get("output") or "").startswith("core::result::Result<"):
+            return out
+        fin = []
+        for s in out:
+            r = s.result
+            if s.done != ("ret", 0) or r is None or r[0] == "ctor":
+                fin.append(s)
+                continue
+            for s2, okb in self.test_variant(r, OK, s):
+                s2.result = ("ctor", OK, (self.proj(r, OK, 0),)) if okb else ("ctor", ERR, (self.proj(r, ERR, 0),))
+                fin.append(s2)
+        return fin
+
+    def _run(self):
         st = State()
         for p in self.fn.get("params", []):
             for name, pid in H.pat_bindings(p):
@@ -269,6 +286,10 @@ class Sym:
         # Ok-ness preserving wrappers with a known payload relation
         if t[0] == "call" and t[1] in (R + "map_err", R + "inspect", R + "inspect_err") and ctor == OK and i == 0:
             return self.proj(t[2][0], OK, 0)
+        if t[0] == "call" and t[1] in (R + "inspect", R + "inspect_err") and ctor == ERR and i == 0:
+            return self.proj(t[2][0], ERR, 0)
+        if t[0] == "call" and t[1] == O + "inspect" and ctor == SOME and i == 0:
+            return self.proj(t[2][0], SOME, 0)
         if t[0] == "call" and t[1] in (O + "ok_or", O + "ok_or_else") and ctor == OK and i == 0:
             return self.proj(t[2][0], SOME, 0)
         if t[0] == "call" and t[1] == O + "ok_or" and ctor == ERR and i == 0 and len(t[2]) == 2:
@@ -408,7 +429,10 @@ class Sym:
         return out
 
     def ev_lit(self, n, st):
-        return [(st, ("lit", n.get("v")))]
+        v = n.get("v")
+        if isinstance(v, list):
+            return [(st, ("array", tuple(("lit", x) for x in v)))]
+        return [(st, ("lit", v))]
 
     def ev_path(self, n, st):
         r = n["res"]
